@@ -433,12 +433,13 @@ Proof. apply memN_In. apply in_or_app. right. now left. Qed.
 
 (* ---------- one step ---------- *)
 
-Lemma step_inv s m o :
+Lemma step_base_inv s m o :
   Inv s m ->
-  snd (mon m o (snd (step s o))) = [] /\ Inv (fst (step s o)) (fst (mon m o (snd (step s o)))).
+  snd (mon_base m o (snd (step_base true false s o))) = [] /\
+  Inv (fst (step_base true false s o)) (fst (mon_base m o (snd (step_base true false s o)))).
 Proof.
-  intros [ids [-> G]]. destruct o as [e ty|e|e|e ty role desc fns|e fid fn r w ps|e|e ty role|t e ty role|t|p c|p c|p|t p|t];
-    unfold step, step_gen, mon; simpl.
+  intros [ids [-> G]]. destruct o as [e ty|e|e|e ty role desc fns|e fid fn r w ps|e|e ty role|t e ty role|t|p c|p c|p|t p|t|e calls];
+    unfold step_base, mon_base; simpl.
   - (* NewEntity *)
     destruct (assoc_N (Npos e) (objs s)) as [o|] eqn:Eo; simpl; rewrite ?expect_ok; simpl.
     + split; [reflexivity|]. exists ids. split; [reflexivity | exact G].
@@ -579,6 +580,54 @@ Proof.
               Inv s1 (mst_of s1 ids)).
       split; [apply judge_reply_ok; exact G1 | exists ids; split; [reflexivity | exact G1]].
     + split; [reflexivity|]. exists ids. split; [reflexivity | exact G].
+  - (* Burst: not an operation of step_base *)
+    rewrite ?expect_ok. split; [reflexivity|]. exists ids. split; [reflexivity | exact G].
+Qed.
+
+(* a call of a burst on an existing entity object: one observation, the object stays *)
+Lemma bcall_single s e c o0 :
+  assoc_N e (objs s) = Some o0 ->
+  exists x, snd (step_base true false s (bcall_op e c)) = [x] /\
+            assoc_N e (objs (fst (step_base true false s (bcall_op e c)))) <> None.
+Proof.
+  intros Ho. destruct c as [|ty role|ty role]; unfold step_base, bcall_op; simpl; rewrite Ho.
+  - eexists. split; [reflexivity|]. simpl. rewrite Ho. discriminate.
+  - eexists. split; [reflexivity|]. simpl. rewrite assoc_upd_feats, N.eqb_refl, Ho. discriminate.
+  - destruct (find_tr ty role (e_feats o0)) as [f|] eqn:Ef.
+    + eexists. split; [reflexivity|]. simpl. rewrite Ho. discriminate.
+    + unfold create, feats_of. rewrite Ho, Ef. simpl. eexists. split; [reflexivity|].
+      simpl. rewrite assoc_upd_feats, N.eqb_refl, Ho. discriminate.
+Qed.
+
+Lemma calls_inv e : forall calls s m,
+  Inv s m -> assoc_N e (objs s) <> None ->
+  snd (mon_calls m (map (bcall_op e) calls) (snd (run_calls true false s (map (bcall_op e) calls)))) = [] /\
+  Inv (fst (run_calls true false s (map (bcall_op e) calls)))
+      (fst (mon_calls m (map (bcall_op e) calls) (snd (run_calls true false s (map (bcall_op e) calls))))).
+Proof.
+  induction calls as [|c calls IH]; intros s m I Hne; simpl; [split; [reflexivity | exact I]|].
+  destruct (assoc_N e (objs s)) as [o0|] eqn:Ho; [|congruence].
+  destruct (bcall_single s e c o0 Ho) as [x [Hx Hne1]].
+  pose proof (step_base_inv s m (bcall_op e c) I) as Hs.
+  destruct (step_base true false s (bcall_op e c)) as [s1 out]. simpl in Hx, Hne1, Hs. subst out.
+  specialize (IH s1).
+  destruct (run_calls true false s1 (map (bcall_op e) calls)) as [s2 out2]. simpl.
+  destruct (mon_base m (bcall_op e c) [x]) as [m1 v]. simpl in Hs. destruct Hs as [-> I1].
+  specialize (IH m1 I1 Hne1). simpl in IH.
+  destruct (mon_calls m1 (map (bcall_op e) calls) out2) as [m2 v2]. simpl in *. exact IH.
+Qed.
+
+Lemma step_inv s m o :
+  Inv s m ->
+  snd (mon m o (snd (step s o))) = [] /\ Inv (fst (step s o)) (fst (mon m o (snd (step s o)))).
+Proof.
+  intros I. destruct o; try exact (step_base_inv s m _ I).
+  unfold step, step_gen, mon. destruct (burst_wf calls).
+  - destruct I as [ids [-> G]]. change (m_objs (mst_of s ids)) with (objs s).
+    destruct (assoc_N e (objs s)) as [o0|] eqn:Ho.
+    + apply calls_inv; [exists ids; split; [reflexivity | exact G] | rewrite Ho; discriminate].
+    + cbn [snd fst]. rewrite expect_ok. split; [reflexivity|]. exists ids. split; [reflexivity | exact G].
+  - cbn [snd fst]. rewrite expect_ok. split; [reflexivity | exact I].
 Qed.
 
 Theorem run_accepted_from s m sc ops :
@@ -645,6 +694,30 @@ Proof.
 Qed.
 
 (* the pending reads change only at ReadBegin / ReadEnd *)
+Lemma step_base_rds s o :
+  rds (fst (step_base true false s o)) =
+  match o with
+  | ReadBegin t p => match assoc_N t (rds s) with Some _ => rds s | None => (t, (p, members s)) :: rds s end
+  | ReadEnd t => match assoc_N t (rds s) with Some _ => remove_N t (rds s) | None => rds s end
+  | _ => rds s
+  end.
+Proof.
+  destruct o as [e ty|e|e|e ty role desc fns|e fid fn r w ps|e|e ty role|t e ty role|t|p c|p c|p|t p|t|e calls];
+    unfold step_base, create, take_id, set_objs; simpl;
+    repeat (match goal with
+            | |- context [match ?x with _ => _ end] => destruct x; simpl
+            end); reflexivity.
+Qed.
+
+Lemma run_calls_rds e : forall calls s, rds (fst (run_calls true false s (map (bcall_op e) calls))) = rds s.
+Proof.
+  induction calls as [|c calls IH]; intros s; simpl; [reflexivity|].
+  pose proof (step_base_rds s (bcall_op e c)) as H1.
+  destruct (step_base true false s (bcall_op e c)) as [s1 out]. specialize (IH s1).
+  destruct (run_calls true false s1 (map (bcall_op e) calls)) as [s2 out2]. simpl in *.
+  rewrite IH, H1. destruct c; reflexivity.
+Qed.
+
 Lemma step_rds s o :
   rds (fst (step s o)) =
   match o with
@@ -653,11 +726,9 @@ Lemma step_rds s o :
   | _ => rds s
   end.
 Proof.
-  destruct o as [e ty|e|e|e ty role desc fns|e fid fn r w ps|e|e ty role|t e ty role|t|p c|p c|p|t p|t];
-    unfold step, step_gen, create, take_id, set_objs; simpl;
-    repeat (match goal with
-            | |- context [match ?x with _ => _ end] => destruct x; simpl
-            end); reflexivity.
+  destruct o; try exact (step_base_rds s _).
+  unfold step, step_gen. destruct (burst_wf calls); [|reflexivity].
+  destruct (assoc_N e (objs s)); [apply run_calls_rds | reflexivity].
 Qed.
 
 (* a read that has begun keeps the entity list it took, whatever else happens, until it ends *)
@@ -706,7 +777,7 @@ Proof.
     pose proof (pending_kept_run sb ops2 t (p, members s1')) as Hk.
     destruct (run sb ops2) as [s3 t3]. simpl in *. apply Hk; [|exact Hn].
     rewrite N.eqb_refl. reflexivity. }
-  unfold step, step_gen. rewrite Hp. reflexivity.
+  unfold step, step_gen, step_base. rewrite Hp. reflexivity.
 Qed.
 
 (* the uninterrupted read is ReadBegin; ReadEnd on a free thread *)
@@ -716,10 +787,240 @@ Theorem read_atomic s t p :
   snd (step s (ReadBegin t p)) = [Parked] /\
   snd (step sb (ReadEnd t)) = snd (step s (Read p)) /\ fst (step sb (ReadEnd t)) = s.
 Proof.
-  intros Hfree. unfold step, step_gen. simpl. rewrite Hfree. simpl. rewrite ?N.eqb_refl. simpl. rewrite ?N.eqb_refl.
+  intros Hfree. unfold step, step_gen, step_base. simpl. rewrite Hfree. simpl. rewrite ?N.eqb_refl. simpl. rewrite ?N.eqb_refl.
   split; [reflexivity|]. split; [reflexivity|].
   assert (Hr : forall (l : list (N * (N * list N))), assoc_N t l = None -> remove_N t l = l).
   { induction l as [|[k v] l IH]; simpl; [reflexivity|]. destruct (N.eqb t k); [discriminate|].
     intros H. rewrite (IH H). reflexivity. }
   rewrite (Hr _ Hfree). destruct s; reflexivity.
 Qed.
+
+(* ---------- overlapping feature creation: a burst is any interleaving of its calls ---------- *)
+(* Each call of a burst takes its feature id in one atomic step and appends under the entity
+   lock; an interleaving of the calls is an order of these steps, i.e. a permutation of the
+   calls executed one after the other. *)
+Require Import Coq.Sorting.Permutation.
+
+(* the feature ids a list of observations shows as taken from the generator *)
+Definition consumed1 (o : obs) : list N :=
+  match o with
+  | FeatId id => [id]
+  | GRet id true => [id]
+  | _ => []
+  end.
+Definition consumed (l : list obs) : list N := flat_map consumed1 l.
+
+Fixpoint nseq (c : N) (n : nat) : list N :=
+  match n with
+  | O => []
+  | S k => c :: nseq (N.succ c) k
+  end.
+
+Fixpoint bump_n (e : N) (n : nat) (l : list (N * N)) : list (N * N) :=
+  match n with
+  | O => l
+  | S k => bump_n e k (ctr_bump e l)
+  end.
+
+(* does the call take an id, given the features F0 the entity had before the burst *)
+Definition consuming (F0 : list feat) (c : bcall) : bool :=
+  match c with
+  | BGet ty role => match find_tr ty role F0 with Some _ => false | None => true end
+  | _ => true
+  end.
+Definition ncons (F0 : list feat) (calls : list bcall) : nat := length (filter (consuming F0) calls).
+
+Lemma ncons_perm F0 a b : Permutation a b -> ncons F0 a = ncons F0 b.
+Proof.
+  unfold ncons. induction 1 as [|x l l' P IH|x y l|l l' l'' P1 IH1 P2 IH2]; simpl.
+  - reflexivity.
+  - destruct (consuming F0 x); simpl; rewrite IH; reflexivity.
+  - destruct (consuming F0 x), (consuming F0 y); reflexivity.
+  - rewrite IH1. exact IH2.
+Qed.
+
+Lemma find_tr_app ty role l l' :
+  find_tr ty role (l ++ l') = match find_tr ty role l with Some f => Some f | None => find_tr ty role l' end.
+Proof.
+  unfold find_tr. induction l as [|f l IH]; simpl; [reflexivity|].
+  destruct (is_tr ty role f); [reflexivity | exact IH].
+Qed.
+
+Lemma sub_eqb_eq a b : sub_eqb a b = true <-> a = b.
+Proof.
+  unfold sub_eqb. destruct a as [a1 a2], b as [b1 b2]. simpl. rewrite andb_true_iff, !N.eqb_eq.
+  split; [intros [-> ->]; reflexivity | intros H; inversion H; split; reflexivity].
+Qed.
+
+Lemma tr_mem_In x l : tr_mem x l = true <-> In x l.
+Proof.
+  unfold tr_mem. rewrite existsb_exists. split.
+  - intros [y [Hy He]]. apply sub_eqb_eq in He. subst. exact Hy.
+  - intros H. exists x. split; [exact H | apply sub_eqb_eq; reflexivity].
+Qed.
+
+Lemma tr_nodup_NoDup l : tr_nodup l = true <-> NoDup l.
+Proof.
+  induction l as [|x l IH]; simpl; [split; [constructor | reflexivity]|].
+  rewrite andb_true_iff, negb_true_iff, IH. split.
+  - intros [Hm Hd]. constructor; [|exact Hd]. intros Hin. apply tr_mem_In in Hin. congruence.
+  - intros H. inversion H as [|a b Hn Hd]; subst. split; [|exact Hd].
+    destruct (tr_mem x l) eqn:E; [|reflexivity]. apply tr_mem_In in E. contradiction.
+Qed.
+
+Lemma burst_wf_perm a b : Permutation a b -> burst_wf a = true -> burst_wf b = true.
+Proof.
+  unfold burst_wf. intros P H. apply tr_nodup_NoDup. apply tr_nodup_NoDup in H.
+  apply (Permutation_NoDup (l := flat_map bcall_tr a)); [|exact H].
+  apply Permutation_flat_map. exact P.
+Qed.
+
+(* a feature of another (type, role) appended: the lookup of (ty, role) is not affected *)
+Lemma find_tr_snoc_other ty role l f :
+  (f_type f, f_role f) <> (ty, role) -> find_tr ty role (l ++ [f]) = find_tr ty role l.
+Proof.
+  intros Hne. rewrite find_tr_app. destruct (find_tr ty role l); [reflexivity|].
+  unfold find_tr. simpl. unfold is_tr.
+  destruct (N.eqb_spec (f_type f) ty) as [E1|_]; [|reflexivity].
+  destruct (N.eqb_spec (f_role f) role) as [E2|_]; [|reflexivity]. subst. contradiction.
+Qed.
+
+Lemma find_tr_feats_add_other ty role l f :
+  (f_type f, f_role f) <> (ty, role) -> find_tr ty role (feats_add f l) = find_tr ty role l.
+Proof.
+  intros Hne. unfold feats_add. destruct (find_tr (f_type f) (f_role f) l); [reflexivity|].
+  apply find_tr_snoc_other. exact Hne.
+Qed.
+
+(* the calls one after the other: the ids taken are next, next+1, ... -- as many as calls that
+   take one --, and the generator has been advanced that many times; nothing of this depends
+   on the order of the calls *)
+Lemma run_calls_ids e F0 : forall calls s c o,
+  assoc_N e (ctrs s) = Some c -> assoc_N e (objs s) = Some o ->
+  NoDup (flat_map bcall_tr calls) ->
+  (forall x, In x (flat_map bcall_tr calls) ->
+     (find_tr (fst x) (snd x) (e_feats o) = None <-> find_tr (fst x) (snd x) F0 = None)) ->
+  consumed (snd (run_calls true false s (map (bcall_op e) calls))) = nseq c (ncons F0 calls) /\
+  ctrs (fst (run_calls true false s (map (bcall_op e) calls))) = bump_n e (ncons F0 calls) (ctrs s).
+Proof.
+  induction calls as [|cl calls IH]; intros s c o Hc Ho Hnd Hsame; [split; reflexivity|].
+  assert (Hc1 : assoc_N e (ctr_bump e (ctrs s)) = Some (N.succ c)).
+  { rewrite assoc_ctr_bump, N.eqb_refl, Hc. reflexivity. }
+  assert (Hcur : ctr_of (ctrs s) e = c) by (unfold ctr_of; rewrite Hc; reflexivity).
+  destruct cl as [|ty role|ty role]; cbn [map bcall_op run_calls].
+  - (* NextFeatureId *)
+    unfold step_base. rewrite Ho. unfold take_id. rewrite Hcur.
+    set (s1 := {| objs := objs s; ctrs := ctr_bump e (ctrs s); members := members s; subs := subs s; thr := thr s; rds := rds s |}).
+    specialize (IH s1 (N.succ c) o Hc1 Ho Hnd Hsame).
+    destruct (run_calls true false s1 (map (bcall_op e) calls)) as [s2 out2]. simpl in *.
+    destruct IH as [IH1 IH2]. rewrite IH1, IH2. split; reflexivity.
+  - (* NewFeatureLocal(NextFeatureId) + AddFeature *)
+    simpl in Hnd. apply NoDup_cons_iff in Hnd. destruct Hnd as [Hnot Hnd'].
+    unfold step_base. rewrite Ho. unfold take_id. rewrite Hcur. cbn [fst snd].
+    set (f := {| f_id := c; f_type := ty; f_role := role; f_desc := if N.eqb 0 0 then 0%N else N.succ 0;
+                 f_ops := fns_add role [] [] |}).
+    set (s1 := set_objs _ _).
+    assert (Ho1 : assoc_N e (objs s1) = Some {| e_type := e_type o; e_feats := feats_add f (e_feats o) |}).
+    { unfold s1. simpl. rewrite assoc_upd_feats, N.eqb_refl, Ho. reflexivity. }
+    assert (Hc1' : assoc_N e (ctrs s1) = Some (N.succ c)) by exact Hc1.
+    specialize (IH s1 (N.succ c) _ Hc1' Ho1 Hnd').
+    assert (Hs1 : forall x, In x (flat_map bcall_tr calls) ->
+              (find_tr (fst x) (snd x) (feats_add f (e_feats o)) = None <-> find_tr (fst x) (snd x) F0 = None)).
+    { intros x Hx. rewrite find_tr_feats_add_other.
+      - apply Hsame. simpl. right. exact Hx.
+      - simpl. intros E. apply Hnot. destruct x as [x1 x2]. simpl in E. inversion E; subst. exact Hx. }
+    specialize (IH Hs1).
+    destruct (run_calls true false s1 (map (bcall_op e) calls)) as [s2 out2]. simpl in *.
+    destruct IH as [IH1 IH2]. rewrite IH1, IH2. split; reflexivity.
+  - (* GetOrAddFeature *)
+    simpl in Hnd. apply NoDup_cons_iff in Hnd. destruct Hnd as [Hnot Hnd'].
+    pose proof (Hsame (ty, role) (or_introl eq_refl)) as Hme. simpl in Hme.
+    unfold step_base. rewrite Ho.
+    destruct (find_tr ty role (e_feats o)) as [f0|] eqn:Ef.
+    + (* it is there: nothing taken *)
+      assert (Hn : consuming F0 (BGet ty role) = false).
+      { simpl. destruct (find_tr ty role F0); [reflexivity|]. destruct Hme as [_ Hme]. discriminate (Hme eq_refl). }
+      specialize (IH s c o Hc Ho Hnd').
+      assert (Hs1 : forall x, In x (flat_map bcall_tr calls) ->
+                (find_tr (fst x) (snd x) (e_feats o) = None <-> find_tr (fst x) (snd x) F0 = None)).
+      { intros x Hx. apply Hsame. simpl. right. exact Hx. }
+      specialize (IH Hs1).
+      destruct (run_calls true false s (map (bcall_op e) calls)) as [s2 out2]. simpl in *.
+      unfold ncons in *. simpl. rewrite Hn. exact IH.
+    + (* created under the lock *)
+      assert (Hy : consuming F0 (BGet ty role) = true).
+      { simpl. destruct Hme as [Hme _]. rewrite (Hme eq_refl). reflexivity. }
+      unfold create, feats_of. rewrite Ho, Ef. unfold take_id. rewrite Hcur. cbn [fst snd].
+      set (f := {| f_id := c; f_type := ty; f_role := role; f_desc := 1; f_ops := [] |}).
+      set (s1 := set_objs _ _).
+      assert (Ho1 : assoc_N e (objs s1) = Some {| e_type := e_type o; e_feats := e_feats o ++ [f] |}).
+      { unfold s1. simpl. rewrite assoc_upd_feats, N.eqb_refl, Ho. reflexivity. }
+      assert (Hc1' : assoc_N e (ctrs s1) = Some (N.succ c)) by exact Hc1.
+      specialize (IH s1 (N.succ c) _ Hc1' Ho1 Hnd').
+      assert (Hs1 : forall x, In x (flat_map bcall_tr calls) ->
+                (find_tr (fst x) (snd x) (e_feats o ++ [f]) = None <-> find_tr (fst x) (snd x) F0 = None)).
+      { intros x Hx. rewrite find_tr_snoc_other.
+        - apply Hsame. simpl. right. exact Hx.
+        - simpl. intros E. apply Hnot. destruct x as [x1 x2]. simpl in E. inversion E; subst. exact Hx. }
+      specialize (IH Hs1).
+      destruct (run_calls true false s1 (map (bcall_op e) calls)) as [s2 out2]. simpl in *.
+      destruct IH as [IH1 IH2]. unfold ncons in *. simpl. rewrite Hy. simpl. rewrite IH1, IH2. split; reflexivity.
+Qed.
+
+Lemma nseq_lt c n x : In x (nseq c n) -> (c <= x)%N.
+Proof.
+  revert c. induction n as [|n IH]; intros c H; simpl in H; [contradiction|].
+  destruct H as [<-|H]; [lia|]. apply IH in H. lia.
+Qed.
+
+Lemma nseq_nodup c n : NoDup (nseq c n).
+Proof.
+  revert c. induction n as [|n IH]; intros c; simpl; constructor; [|apply IH].
+  intros H. apply nseq_lt in H. lia.
+Qed.
+
+(* the calls of a burst are ordinary operations run one after the other *)
+Lemma run_calls_run e : forall calls s,
+  run_calls true false s (map (bcall_op e) calls) =
+  (fst (run s (map (bcall_op e) calls)), concat (map snd (snd (run s (map (bcall_op e) calls))))).
+Proof.
+  unfold run. induction calls as [|c calls IH]; intros s; simpl; [reflexivity|].
+  assert (Hst : step_gen true false s (bcall_op e c) = step_base true false s (bcall_op e c)) by (destruct c; reflexivity).
+  rewrite Hst. destruct (step_base true false s (bcall_op e c)) as [s1 out]. rewrite IH.
+  destruct (run_gen true false s1 (map (bcall_op e) calls)) as [s2 tr]. reflexivity.
+Qed.
+
+(* Any interleaving of the calls of a burst -- any permutation calls' run one after the
+   other -- takes the same ids as the burst, next, next+1, ... without a duplicate, and leaves
+   the same feature id generators. *)
+Theorem burst_any_interleaving s ids e calls calls' :
+  Good s ids -> assoc_N e (objs s) <> None -> burst_wf calls = true -> Permutation calls calls' ->
+  consumed (snd (step s (Burst e calls))) = consumed (concat (map snd (snd (run s (map (bcall_op e) calls'))))) /\
+  ctrs (fst (step s (Burst e calls))) = ctrs (fst (run s (map (bcall_op e) calls'))) /\
+  NoDup (consumed (snd (step s (Burst e calls)))) /\
+  (forall id, In id (consumed (snd (step s (Burst e calls)))) -> (ctr_of (ctrs s) e <= id)%N).
+Proof.
+  intros G Hne Hwf P.
+  destruct (assoc_N e (objs s)) as [o|] eqn:Ho; [|congruence].
+  destruct (g_ctr _ _ G _ _ Ho) as [c Hc].
+  pose proof (burst_wf_perm _ _ P Hwf) as Hwf'.
+  unfold step, step_gen. rewrite Hwf, Ho.
+  assert (Htriv : forall l x, In x (flat_map bcall_tr l) ->
+            (find_tr (fst x) (snd x) (e_feats o) = None <-> find_tr (fst x) (snd x) (e_feats o) = None))
+    by (intros; tauto).
+  destruct (run_calls_ids e (e_feats o) calls s c o Hc Ho (proj1 (tr_nodup_NoDup _) Hwf) (Htriv calls)) as [A1 A2].
+  destruct (run_calls_ids e (e_feats o) calls' s c o Hc Ho (proj1 (tr_nodup_NoDup _) Hwf') (Htriv calls')) as [B1 B2].
+  rewrite (run_calls_run e calls' s) in B1, B2. simpl in B1, B2.
+  rewrite A1, A2, B1, B2, (ncons_perm _ _ _ P).
+  split; [reflexivity|]. split; [reflexivity|]. split; [apply nseq_nodup|].
+  intros id Hin. apply nseq_lt in Hin. unfold ctr_of. rewrite Hc. exact Hin.
+Qed.
+
+Theorem burst_any_interleaving_reachable ops e calls calls' :
+  let s := fst (run init ops) in
+  assoc_N e (objs s) <> None -> burst_wf calls = true -> Permutation calls calls' ->
+  consumed (snd (step s (Burst e calls))) = consumed (concat (map snd (snd (run s (map (bcall_op e) calls'))))) /\
+  ctrs (fst (step s (Burst e calls))) = ctrs (fst (run s (map (bcall_op e) calls'))) /\
+  NoDup (consumed (snd (step s (Burst e calls)))) /\
+  (forall id, In id (consumed (snd (step s (Burst e calls)))) -> (ctr_of (ctrs s) e <= id)%N).
+Proof. intros s. destruct (run_good ops) as [ids G]. exact (burst_any_interleaving s ids e calls calls' G). Qed.
